@@ -592,7 +592,9 @@ class Gen:
         return (0,)
 
     def lazy(self, depth):
-        return self.r.randint(1, depth) if self.spell and depth and self.p(0.3) else 0
+        # (not in the reflow modes: mistletoe ends a quote at a lazy line that follows a line
+        # indented >= 4, so the structure of the document would no longer be the generated one)
+        return self.r.randint(1, depth) if self.free and depth and self.p(0.3) else 0
 
     def b_p(self, depth):
         b = N('p', self.inl(), ind=self.inds(), lazy=self.lazy(depth))
